@@ -85,6 +85,27 @@ def natural_matrix(ctx):
                                      steps=12, ramp=None, terminal_psi=v, dt=(DT if xi < 1 else 2.0 ** -10)))
             runs.append(dict(label=f"{dev}/meshed three times/psi=0", dev=dev, remesh=[2.0, 1.0, 0.5], field=0.6,
                              current=(3.0 if dev == "barhole" else 0.0), dt=2.0 ** -9, steps=10, ramp=None, terminal_psi=[0.0, 0.0]))
+    # terminal polygons handed to the package in several equivalent forms (geometry.box, the four corners in either
+    # orientation, a closed five-point ring), and devices derived with Device.scale / rotate / translate (incl. a
+    # mirror: negative factor).  The oracle uses the corner numbers the HARNESS specified, transformed by its own arithmetic.
+    gf = dict(field=0.5, current=0.0, steps=5, ramp=None)
+    for kind, form, name, v in (("bar", "ccw", "0", [0.0, 0.0]), ("bar", "cw", "1", [1.0, 0.0]), ("tee", "closed", "0", [0.0, 0.0]),
+                                ("cross", "ccw", "0.6+0.2j", [0.6, 0.2]), ("bar", "ccw", "None", "none")):
+        runs.append(dict(gf, label=f"{kind}/terminals as {form} corners/psi={name}", dev=kind, terminal_form=form, terminal_psi=v))
+    for kind, form, tr, name, v in (("bar", "box", [("scale", (1.0, 1.4))], "0", [0.0, 0.0]),
+                                    ("bar", "ccw", [("translate", (0.3, 0.5))], "1", [1.0, 0.0]),
+                                    ("tee", "box", [("rotate", 10.0)], "0", [0.0, 0.0]),
+                                    ("bar", "box", [("scale", (-1.2, 1.0)), ("rotate", 25.0), ("translate", (1.0, -0.5))], "0.6+0.2j", [0.6, 0.2]),
+                                    ("bar", "cw", [("scale", (1.0, 1.3))], "None", "none")):
+        runs.append(dict(gf, label=f"{kind}/{form}/derived by {tr}/psi={name}", dev=kind, terminal_form=form, transform=tr, terminal_psi=v))
+    if not ctx.quick:
+        for kind in ("barhole", "tee", "cross"):
+            for form in ("ccw", "cw", "closed"):
+                runs.append(dict(gf, label=f"{kind}/terminals as {form} corners/psi=0", dev=kind, terminal_form=form, terminal_psi=[0.0, 0.0], steps=10))
+            for tr in ([("scale", (1.0, 1.5))], [("scale", (1.0, -1.2))], [("rotate", -15.0)], [("translate", (-0.4, 0.6))],
+                       [("rotate", 30.0), ("scale", (1.1, 1.3)), ("translate", (2.0, 1.0))]):
+                runs.append(dict(gf, label=f"{kind}/box/derived by {tr}/psi=1", dev=kind, terminal_form="box", transform=tr,
+                                 terminal_psi=[1.0, 0.0], steps=10))
     # equivalent API forms of configuring the terminal value: keyword (all runs above), attribute assignment after
     # construction (None -> value, value -> None, value -> other value), dataclasses.replace, copy / deepcopy / pickle
     # of an options object, options read back from a Solution file
@@ -189,6 +210,11 @@ def solver_level(ctx):
     if sum(1 for t in nat_traces if t["info"]["remeshed"] and t["info"]["remeshed"][-1][1] > t["info"]["remeshed"][0][1]
            and t["info"]["remeshed"][-1][0] != t["info"]["remeshed"][0][0]) < 2:
         raise core.MachineryFailure("C06: re-meshed devices whose second mesh has more terminal sites are missing")
+    tforms = {a.get("terminal_form", "box") for a in nat}
+    tops = {op for a in nat for op, _ in (a.get("transform") or [])}
+    if not {"box", "ccw", "cw", "closed"} <= tforms or not {"scale", "rotate", "translate"} <= tops or \
+            not any(op == "scale" and min(arg) < 0 for a in nat for op, arg in (a.get("transform") or [])):
+        raise core.MachineryFailure(f"C06: terminal forms {sorted(tforms)} / derived devices {sorted(tops)} (incl. a mirror) are incomplete")
     forms = {(t["form"], t["v0"] == "none", t["v"] == "none") for t in nat_traces}
     if not {("assign", False, True), ("assign", True, False)} <= forms or \
             not {"replace", "copy", "deepcopy", "pickle", "file"} <= {f for f, _, _ in forms}:
